@@ -64,7 +64,13 @@ DiffClass(st, s) ==
                  ELSE IF missed # {} THEN (IF missed \cap Visit(fs, ra.p, rec, FALSE) = {} THEN "missed-only-via-link" ELSE "missed")
                  ELSE "-",
                  IF \E x \in V : IsLink(fs, x) /\ IsLink(fs, fs[x].t) THEN "link-chain" ELSE "-" >>
-JudgeStepP(pre, s) == LET j == JudgeStep(pre, s) IN
+\* Clauses with SEVERAL target letters ("ad:u+r", "ff:u+x") are outside the single-letter reading of ChmodSym!WellFormed, but the
+\* crate's own unit test uses them (chmod.rs, test_chmod_symbolic, "multiple targets"): the documentation does not settle them,
+\* so such expressions are not judged here (class skip) instead of being reported as accepted-malformed.
+SeveralTargetLetters(c) == c.op = "chmod_b" /\ LET co == ChmodOpts(c) IN
+   SymUsed(co) /\ \E i \in 1..Len(CS!Clauses(co.sym)) : LeadN(CS!Clauses(co.sym)[i]) >= 2
+JudgeStepP(pre, s) == IF SeveralTargetLetters(s.c) THEN << <<"skip", "several-target-letters">> >> ELSE
+   LET j == JudgeStep(pre, s) IN
    IF j[1][1] = "BAD" /\ s.c.op \in {"chmod_b", "chmod"} THEN << j[1] \o SymClass(pre, s.c) \o DiffClass(pre, s) >>
    ELSE IF j[1][1] = "BAD" /\ s.c.op \in {"chown_b", "chown"} THEN << j[1] \o <<"-", "-", "-">> \o DiffClass(pre, s) >>
    ELSE j
